@@ -49,6 +49,7 @@ type FuncContract struct {
 	GhostVars    []*GhostVar
 	Afters       []*GhostUpdate
 	MakeChans    map[int][]*Clause // ghost facts fixed at the n-th make(chan) of the function
+	AllocAssumes []*Clause         // ghost facts fixed for every backing array the function allocates (make / growing append); `a` = array id
 }
 
 type GhostFunc struct {
@@ -509,6 +510,16 @@ func ParseContracts(dir, pkgPath string) (*PkgContracts, error) {
 				cur.MakeChans = map[int][]*Clause{}
 			}
 			cur.MakeChans[n] = append(cur.MakeChans[n], c)
+		case "allocassume":
+			// allocassume P(a)  -- ghost definition for every backing array this function allocates
+			if cur == nil {
+				return nil, fmt.Errorf("%s:%d: allocassume outside func", file, l.no)
+			}
+			c, err := mkClause(kw, props, rest, l.no)
+			if err != nil {
+				return nil, err
+			}
+			cur.AllocAssumes = append(cur.AllocAssumes, c)
 		case "typeassume":
 			i := strings.Index(rest, ":")
 			if i < 0 {
